@@ -90,6 +90,32 @@ def _scan_sites():
 
 
 GEOM_CALLERS = ("soft_restart", "move_furthest_points")
+_EXIT_LINES = {}    # function name -> sorted line numbers of its ExitInformation( constructions
+
+
+def _scan_exits():
+    import ast
+    out = {}
+    for mod in (C, S):
+        try:
+            tree = ast.parse(inspect.getsource(mod))
+        except (OSError, TypeError, SyntaxError):
+            continue
+        for fn in ast.walk(tree):
+            if isinstance(fn, ast.FunctionDef):
+                lines = sorted(set(nd.lineno for nd in ast.walk(fn) if isinstance(nd, ast.Call) and
+                                   isinstance(nd.func, ast.Name) and nd.func.id == "ExitInformation"))
+                if lines:
+                    out[fn.name] = lines
+    return out
+
+
+def all_exit_ids(include_input_checks=False):
+    """Every place where the tree under test constructs an ExitInformation, as 'function#ordinal' (source order).  The
+    constructions inside solve() are its input checks and its final adjustments (not run-time exits of the algorithm)."""
+    install()
+    return ["%s#%d" % (fn, i) for fn, lines in sorted(_EXIT_LINES.items()) for i in range(len(lines))
+            if include_input_checks or fn != "solve"]
 
 
 def all_site_ids():
@@ -155,6 +181,50 @@ def site_floor(report, tags, exempt=None):
         raise common.HarnessError("evaluation sites never reached under this check: %s" % missing)
 
 
+KNOWN_EXITS = ['add_new_direction_while_growing#0', 'calculate_ratio#0', 'calculate_ratio#1', 'choose_point_to_replace#0',
+               'evaluate_objective#0', 'evaluate_objective#1', 'evaluate_objective#2', 'geometry_step#0', 'soft_restart#0',
+               'soft_restart#1', 'solve_main#0', 'solve_main#1', 'solve_main#2', 'solve_main#3', 'solve_main#4', 'solve_main#5',
+               'solve_main#6', 'solve_main#7', 'solve_main#8', 'solve_main#9', 'solve_main#10']
+EXIT_NAMES = {
+    'add_new_direction_while_growing#0': 'linear algebra error while adding a direction (growing phase)',
+    'calculate_ratio#0': 'trust-region step increased the model (warning: several active constraints / radius too small)',
+    'calculate_ratio#1': 'trust-region step increased the model (error)',
+    'choose_point_to_replace#0': 'linear algebra error when choosing the point to replace',
+    'evaluate_objective#0': 'budget reached at an evaluation', 'evaluate_objective#1': 'objective sufficiently small',
+    'evaluate_objective#2': 'objective sufficiently small (regularised)',
+    'geometry_step#0': 'linear algebra error in a geometry step',
+    'soft_restart#0': 'budget reached at a soft restart', 'soft_restart#1': 'maximum number of unsuccessful restarts',
+    'solve_main#0': 'budget reached while sampling x0', 'solve_main#1': 'objective sufficiently small at x0',
+    'solve_main#2': 'objective sufficiently small at x0 (regularised)', 'solve_main#3': 'all points within noise level',
+    'solve_main#4': 'interpolation failed', 'solve_main#5': 'rho reached rhoend (safety step)',
+    'solve_main#6': 'NaN in the trust-region step evaluation', 'solve_main#7': 'maximum slow iterations',
+    'solve_main#8': 'maximum false successful steps', 'solve_main#9': 'auto-detected restart',
+    'solve_main#10': 'rho reached rhoend (after an unsuccessful step)',
+}
+# exits that need a singular interpolation geometry (coincident / affinely dependent POINTS): the objective's answers cannot
+# produce one and no configuration of the bank does
+GEOMETRY_EXITS = {k: "needs affinely dependent interpolation points; no configuration found reaches it"
+                  for k in ('add_new_direction_while_growing#0', 'choose_point_to_replace#0', 'geometry_step#0')}
+
+
+def exit_floor(report, tags, exempt=None):
+    """Exit-site coverage, like site_floor: every place where the tree constructs a run-time ExitInformation must be reached
+    under this check's monitors, or be exempted with a reason."""
+    exempt = dict(GEOMETRY_EXITS, **(exempt or {}))
+    have = all_exit_ids()
+    reached = {t[5:]: n for t, n in tags.items() if t.startswith("exit:") and not t.startswith("exit:solve#")}
+    cov = report.coverage.setdefault("exit_sites", {})
+    cov["reached"] = {k: {"executions": reached[k], "what": EXIT_NAMES.get(k, "?")} for k in sorted(reached)}
+    cov["exempt"] = dict(exempt)
+    if sorted(have) != sorted(KNOWN_EXITS):
+        cov["note"] = "exit table of this tree %s differs from the recorded one; floor not applied" % have
+        return
+    missing = [k for k in KNOWN_EXITS if k not in reached and k not in exempt]
+    cov["not_reached"] = missing
+    if missing:
+        raise common.HarnessError("exit sites never reached under this check: %s" % missing)
+
+
 def _ordinal(lines, ln):
     return max([i for i, l in enumerate(lines) if l <= ln] or [0])
 
@@ -183,6 +253,25 @@ def install():
         return
     _installed = True
     _SITE_LINES.update(_scan_sites())
+    _EXIT_LINES.update(_scan_exits())
+
+    # 0. ExitInformation.__init__: which construction site produced an exit object (coverage tags only)
+    orig_exit_init = C.ExitInformation.__init__
+
+    def exit_init(self, flag, msg_details):
+        ex = CUR
+        if ex is not None:
+            fr = sys._getframe(1)
+            for _ in range(3):      # a monitor may have wrapped the constructor too: look a few frames up
+                if fr is None:
+                    break
+                lines = _EXIT_LINES.get(fr.f_code.co_name)
+                if lines and fr.f_code.co_filename.startswith(common.REPO):
+                    ex.tags.add("exit:%s#%d" % (fr.f_code.co_name, _ordinal(lines, fr.f_lineno)))
+                    break
+                fr = fr.f_back
+        return orig_exit_init(self, flag, msg_details)
+    C.ExitInformation.__init__ = exit_init
 
     # locate the two evaluate_objective call sites in solve_main (source order: final check, then trial step)
     try:
